@@ -530,9 +530,13 @@ def r03_1_apply_protocol(ctx: Ctx) -> None:
             done_v = src(n.targets[0].elts[1])
     if done_v is None:
         raise AnalysisError("UnaryOperation.apply no longer unpacks (result, done, messages) from backtrack_unary")
+    from ..facts import contradictory
+
     for i, p in enumerate(ctx.paths(f)):
         inst = f"apply:path{i}"
         facts = path_facts(p)
+        if contradictory([fc for fc in facts if fc.kind == "OR" or all(a.isidentifier() for a in fc.args)]):
+            continue  # e.g. `not done and transfer` taken and `not done` refused later, with `done` not re-bound in between
         other_engine = has_fact(facts, "EQ", tuple(sorted(("preferred_engine", f"{tgt}.engine"))), False)
         backtrack = has_fact(facts, "TRUTH", ("backtrack",), True)
         no_backtrack = has_fact(facts, "TRUTH", ("backtrack",), False)
@@ -797,8 +801,33 @@ def r03_2_backtrack_contract(ctx: Ctx) -> None:
                 rec = [c for _, c in calls if call_attr(c) == "backtrack_unary"]
                 ok = bool(rec) and src(rec[0].func.value) == f"{tcap}.engine" and [src(a) for a in rec[0].args] == [op, tcap, pref]  # type: ignore[union-attr]
                 ok = ok and isinstance(rv, ast.Call) and call_attr(rv) == "reapply"
-                if ok:
+
+                def _part(e, idx, _rec=rec) -> bool:
+                    """`e` is element idx of what the delegate returned, untouched."""
+                    envp = env_at(p)
+                    if isinstance(e, ast.Name):
+                        b = envp.get(e.id)
+                        if isinstance(b, tuple) and b and b[0] == "unpack" and b[2] == idx:
+                            return src(b[1]) == src(_rec[0])
+                        return False
+                    if isinstance(e, ast.Subscript) and isinstance(e.slice, ast.Constant) and e.slice.value == idx:
+                        b = envp.get(e.value.id) if isinstance(e.value, ast.Name) else e.value
+                        return isinstance(b, ast.AST) and src(b) == src(_rec[0])
+                    return False
+
+                forwarded = ok and isinstance(v, ast.Tuple) and len(v.elts) == 3 and rv.args and _part(rv.args[0], 0) and _part(v.elts[1], 1) and _part(v.elts[2], 2)
+                if ok and forwarded:
                     run.ok("R03.2", inst + ":transfer-delegate")
+                elif ok:
+                    run.fail(
+                        "R03.2",
+                        inst + ":transfer-delegate",
+                        f"the answer of the upstream engine's backtrack_unary is not handed on as it is (`{src(v)[:90]}`): the transfer must be re-applied on the returned tree, and the "
+                        "returned done flag and messages passed through untouched - only that engine knows whether the operation itself (rather than a wider stand-in) was inserted",
+                        fi=f,
+                        node=p.node or f.node,
+                        details=describe(p),
+                    )
                 else:
                     run.fail("R03.2", inst + ":transfer-delegate", "for another upstream engine backtracking must be delegated to that engine's backtrack_unary and the transfer re-applied on its result", fi=f, node=p.node or f.node, details=describe(p))
         elif ib >= 0:
